@@ -1,5 +1,6 @@
 import PiqpProofs.Basic
 import PiqpModel.Api
+import PiqpProofs.Properties.C13
 
 /-!
 # C10 — the answer does not depend on back end, KKT formulation or storage of P
@@ -27,4 +28,63 @@ theorem upperOfMat_reads_upper_only (A B : Mat K n n)
     exact h ⟨i, hi⟩ ⟨j, hj⟩ hle
   · rfl
 
+end Piqp.C10
+
+namespace Piqp.C10
+set_option linter.unusedSectionVars false
+set_option linter.unusedVariables false
+section agree
+open Piqp.C13
+variable {K : Type} [Field K] [LinearOrder K]
+variable {n p m : Nat}
+
+/-- two KKT states (of possibly different back ends) carry the same regularisation and scalings -/
+structure SameScalings (k1 k2 : KKT K n p m) : Prop where
+  rho : k1.rho = k2.rho
+  delta : k1.delta = k2.delta
+  s : k1.s = k2.s
+  zinv : k1.zinv = k2.zinv
+  s_lb : k1.s_lb = k2.s_lb
+  zinv_lb : k1.zinv_lb = k2.zinv_lb
+  s_ub : k1.s_ub = k2.s_ub
+  zinv_ub : k1.zinv_ub = k2.zinv_ub
+
+theorem multiply_congr (d : Data K n p m) (k1 k2 : KKT K n p m) (h : SameScalings k1 k2) (v old : Step K n p m) :
+    KKT.multiply d k1 v old = KKT.multiply d k2 v old := by
+  unfold KKT.multiply
+  rw [h.rho, h.delta, h.s, h.zinv, h.s_lb, h.zinv_lb, h.s_ub, h.zinv_ub]
+
+/-- **C10, all back ends compute the same step.** Two back ends (any two of dense / full / eq- / ineq- / all-eliminated)
+    whose reduced matrices are coherent with the same data and scalings and whose inner factorisations are exact return
+    steps with the same image under the full Newton operator; if that operator is injective (the system is nonsingular,
+    which positive `ρ, δ` and an interior iterate guarantee for a convex problem), the steps are equal. -/
+theorem backends_agree_exact (be1 be2 : Backend) (st1 st2 : KKTSettings K) (d : Data K n p m) (k1 k2 : KKT K n p m)
+    (r old out1 out2 : Step K n p m) (slv1 slv2 : SolveFn K n p m)
+    (hsame : SameScalings k1 k2)
+    (hf1 : k1.fsol = some slv1) (hc1 : Coherent be1 d k1) (he1 : InnerExact be1 k1.k slv1) (hi1 : Interior d k1)
+    (hf2 : k2.fsol = some slv2) (hc2 : Coherent be2 d k2) (he2 : InnerExact be2 k2.k slv2) (hi2 : Interior d k2)
+    (h1 : KKT.solve be1 st1 d k1 r old false = some out1) (h2 : KKT.solve be2 st2 d k2 r old false = some out2) :
+    KKT.multiply d k1 out1 old = KKT.multiply d k1 out2 old ∧
+    ((∀ v v' : Step K n p m, KKT.multiply d k1 v old = KKT.multiply d k1 v' old → v = v') → out1 = out2) := by
+  have A := solve_solves_full_system be1 st1 d k1 r old out1 slv1 hf1 hc1 he1 hi1 h1
+  have B := solve_solves_full_system be2 st2 d k2 r old out2 slv2 hf2 hc2 he2 hi2 h2
+  rw [← multiply_congr d k1 k2 hsame out2 old] at B
+  obtain ⟨a1, a2, a3, a4, a5, a6, a7, a8⟩ := A
+  obtain ⟨b1, b2, b3, b4, b5, b6, b7, b8⟩ := B
+  have key : KKT.multiply d k1 out1 old = KKT.multiply d k1 out2 old := by
+    have ext : ∀ (u v : Step K n p m), u.x = v.x → u.y = v.y → u.z = v.z → u.z_lb = v.z_lb → u.z_ub = v.z_ub →
+        u.s = v.s → u.s_lb = v.s_lb → u.s_ub = v.s_ub → u = v := by
+      intro u v e1 e2 e3 e4 e5 e6 e7 e8; cases u; cases v; simp_all
+    apply ext
+    · exact Vector.ext fun i hi => by have := a1 ⟨i, hi⟩; have := b1 ⟨i, hi⟩; simp_all
+    · exact Vector.ext fun i hi => by have := a2 ⟨i, hi⟩; have := b2 ⟨i, hi⟩; simp_all
+    · exact Vector.ext fun i hi => by have := a3 ⟨i, hi⟩; have := b3 ⟨i, hi⟩; simp_all
+    · exact Vector.ext fun i hi => by have := a5 ⟨i, hi⟩; have := b5 ⟨i, hi⟩; simp_all
+    · exact Vector.ext fun i hi => by have := a7 ⟨i, hi⟩; have := b7 ⟨i, hi⟩; simp_all
+    · exact Vector.ext fun i hi => by have := a4 ⟨i, hi⟩; have := b4 ⟨i, hi⟩; simp_all
+    · exact Vector.ext fun i hi => by have := a6 ⟨i, hi⟩; have := b6 ⟨i, hi⟩; simp_all
+    · exact Vector.ext fun i hi => by have := a8 ⟨i, hi⟩; have := b8 ⟨i, hi⟩; simp_all
+  exact ⟨key, fun hinj => hinj _ _ key⟩
+
+end agree
 end Piqp.C10
